@@ -321,6 +321,7 @@ func checkC11(c *Ctx) {
 		raw, err := loadReplayCase(c.Replay)
 		if err != nil {
 			c.Rep.Fatal(err.Error())
+		} else if projReplay(c, raw, "rename") {
 		} else {
 			jb := c11Build(c.Seed)(1, raw)
 			if jb != nil {
@@ -337,6 +338,8 @@ func checkC11(c *Ctx) {
 	scopeRuns(c, p, c11Build(c.Seed), judge)
 	close(follow)
 	wg.Wait()
+	// Project.tla: workspaces analysed as a project (entry file + what it requires), both modes
+	projectRuns(c, p, 0, "rename")
 	c.poolStats(p)
 	c.Rep.Extra["reanalysed_after_rename"] = p2.Cases
 	if surveyMode {
